@@ -101,6 +101,21 @@ func seqProgram(r *ev.Run, id string, i int) {
 	thr := rng.Pick(g, []zapcore.Level{zapcore.DebugLevel, zapcore.DebugLevel, zapcore.InfoLevel, zapcore.WarnLevel})
 	al := zap.NewAtomicLevelAt(thr) // the threshold moves during the program: budget must not be consumed while a level is disabled
 	base, logs := observer.New(al)
+	// one program in five samples a tee of two selective cores instead (one takes info only, the other
+	// error and above): debug and warn fall into the gaps, where nothing is enabled
+	selective := g.P(1, 5)
+	var teeFwd []int
+	if selective {
+		base = zapcore.NewTee(&fwdCore{en: zap.LevelEnablerFunc(func(l zapcore.Level) bool { return l == zapcore.InfoLevel }), out: &teeFwd},
+			&fwdCore{en: zap.LevelEnablerFunc(func(l zapcore.Level) bool { return l >= zapcore.ErrorLevel }), out: &teeFwd})
+		r.Count("programs_over_a_tee_of_selective_cores", 1)
+	}
+	enabledModel := func(l zapcore.Level) bool {
+		if selective {
+			return l == zapcore.InfoLevel || l >= zapcore.ErrorLevel
+		}
+		return l >= thr
+	}
 	var hooks []hookRec
 	s := zapcore.NewSamplerWithOptions(base, tick, n, m, zapcore.SamplerHook(func(e zapcore.Entry, d zapcore.SamplingDecision) {
 		hooks = append(hooks, hookRec{e.Message, e.Level, e.Time.UnixNano(), d})
@@ -122,6 +137,9 @@ func seqProgram(r *ev.Run, id string, i int) {
 		r.Count("programs_binary_messages", 1)
 	}
 	levels := []zapcore.Level{zapcore.DebugLevel, zapcore.InfoLevel, zapcore.ErrorLevel}
+	if selective {
+		levels = append(levels, zapcore.WarnLevel, zapcore.WarnLevel)
+	}
 	r.SetAdd("n_m_tick", fmt.Sprintf("%d/%d/%v", n, m, tick))
 	steps := g.Range(40, 400)
 	ts := int64(1_000_000_000 + g.Intn(1000))
@@ -188,7 +206,7 @@ func seqProgram(r *ev.Run, id string, i int) {
 			r.Count("placement:zero-time-entry", 1)
 		}
 		trace = append(trace, fmt.Sprintf("#%d lvl=%d msg=%q ts=%d via=%d %s", k, lvl, msg, ets, via, place))
-		if lvl >= thr { // the model: disabled levels are skipped before counting
+		if enabledModel(lvl) { // the model: disabled levels are skipped before counting
 			counted, admit := md.decide(lvl, msg, ets)
 			if counted {
 				d := zapcore.LogDropped
@@ -223,7 +241,7 @@ func seqProgram(r *ev.Run, id string, i int) {
 		}
 		r.Violate(ev.Violation{Case: id, Class: class, Msg: fmt.Sprintf("N=%d M=%d tick=%v threshold=%v: ", n, m, tick, thr) + fmt.Sprintf(f, a...), Witness: map[string]any{"N": n, "M": m, "tick": tick.String(), "entries": tr}})
 	}
-	var gotFwd []int
+	gotFwd := teeFwd
 	for _, e := range logs.All() {
 		for _, f := range e.Context {
 			if f.Key == "i" {
@@ -254,6 +272,33 @@ func seqProgram(r *ev.Run, id string, i int) {
 		r.Sample(map[string]any{"N": n, "M": m, "tick": tick.String(), "entries": tr, "admitted": len(wantFwd)})
 	}
 }
+
+// fwdCore records the "i" field of every entry written to it.
+type fwdCore struct {
+	en  zapcore.LevelEnabler
+	out *[]int
+	ctx []zapcore.Field
+}
+
+func (c *fwdCore) Enabled(l zapcore.Level) bool { return c.en.Enabled(l) }
+func (c *fwdCore) With(fs []zapcore.Field) zapcore.Core {
+	return &fwdCore{en: c.en, out: c.out, ctx: append(c.ctx[:len(c.ctx):len(c.ctx)], fs...)}
+}
+func (c *fwdCore) Check(e zapcore.Entry, ce *zapcore.CheckedEntry) *zapcore.CheckedEntry {
+	if c.Enabled(e.Level) {
+		return ce.AddCore(e, c)
+	}
+	return ce
+}
+func (c *fwdCore) Write(_ zapcore.Entry, fs []zapcore.Field) error {
+	for _, f := range fs {
+		if f.Key == "i" {
+			*c.out = append(*c.out, int(f.Integer))
+		}
+	}
+	return nil
+}
+func (c *fwdCore) Sync() error { return nil }
 
 func firstDiff(a, b []int) int {
 	for i := 0; i < len(a) && i < len(b); i++ {
